@@ -109,14 +109,13 @@ type c28Placed struct {
 // one transaction claims a signer that is not its sender's auth address (commitments recomputed) is handed to
 // Ledger.Validate, which must refuse it. tamper returns the payset index and the AuthAddr to plant (ok=false:
 // nothing to tamper with).
-func c28Finish(w *evkWorld, ev *eval.BlockEvaluator, tamper func(n int) (int, basics.Address, bool)) (tampered bool, twinErr error, err error) {
+func c28Finish(w *evkWorld, ev *eval.BlockEvaluator, tamper func(n int) (int, basics.Address, bool)) (fin bookkeeping.Block, tampered bool, twinErr error, err error) {
 	ub, err := ev.GenerateBlock(nil)
 	if err != nil {
-		return false, nil, fmt.Errorf("GenerateBlock: %w", err)
+		return fin, false, nil, fmt.Errorf("GenerateBlock: %w", err)
 	}
 	blk := ub.UnfinishedBlock()
 	prp := blk.BlockHeader.FeeSink
-	var fin bookkeeping.Block
 	if w.proto.Payouts.Enabled {
 		fin = blk.WithProposer(committee.Seed(prp), prp, true)
 	} else {
@@ -128,20 +127,20 @@ func c28Finish(w *evkWorld, ev *eval.BlockEvaluator, tamper func(n int) (int, ba
 		twin.Payset[k].SignedTxn.AuthAddr = claim
 		twin.TxnCommitments, err = twin.PaysetCommit()
 		if err != nil {
-			return false, nil, fmt.Errorf("PaysetCommit of the tampered twin: %w", err)
+			return fin, false, nil, fmt.Errorf("PaysetCommit of the tampered twin: %w", err)
 		}
 		_, twinErr = validateWithoutSignatures(w.t, w.l, twin)
 		tampered = true
 	}
 	vvb, err := validateWithoutSignatures(w.t, w.l, fin)
 	if err != nil {
-		return tampered, twinErr, fmt.Errorf("Validate: %w", err)
+		return fin, tampered, twinErr, fmt.Errorf("Validate: %w", err)
 	}
 	if err = w.l.AddValidatedBlock(*vvb, agreement.Certificate{}); err != nil {
-		return tampered, twinErr, fmt.Errorf("AddValidatedBlock: %w", err)
+		return fin, tampered, twinErr, fmt.Errorf("AddValidatedBlock: %w", err)
 	}
 	w.l.WaitForCommit(w.l.Latest())
-	return tampered, twinErr, nil
+	return fin, tampered, twinErr, nil
 }
 
 func c28IsAuthErr(err error) bool {
@@ -154,9 +153,12 @@ func c28IsAuthErr(err error) bool {
 
 func TestVerif_C28_Evaluator(t *testing.T) {
 	vk := vkBegin(t, "C28")
-	vk.Rule("histories of 1..3 blocks x 1..4 groups x 1..3 members (pay / keyreg-offline / application call with an inner payment) over 5 funded accounts, 2 non-existent addresses and an application account; members rekey (to another account, back to self, to the app, to a ghost), also mid-group and through inner transactions; each member claims the right signer / an old key / a third party / the bare sender / AuthAddr==Sender; oracle = reference auth-address map folded over accepted members; non-trivial = group in which some sender (or inner sender) is currently rekeyed or a member rekeys before a later member of the same group spends, or the claim is wrong; distinct by the rendered history")
+	vk.Rule("histories of 1..3 blocks x 1..4 groups x 1..3 members (pay / keyreg-offline / application call with an inner payment) over 5 funded accounts, 2 non-existent addresses and an application account; members rekey (to another account, back to self, to the app, to a ghost), also mid-group and through inner transactions; each member claims the right signer / an old key / a third party / the bare sender / AuthAddr==Sender; oracle = reference auth-address map folded over accepted members; before each block is committed a twin in which one transaction claims a wrong signer (commitments recomputed) must be refused by Ledger.Validate; non-trivial = group in which some sender (or inner sender) is currently rekeyed or a member rekeys before a later member of the same group spends, or the claim is wrong; distinct by the rendered history")
 	vk.Assume("txntest transactions carry no signatures: the evaluator is only asked whether the claimed signer is the sender's current auth address (signatures are C28 unit 1)")
-	versions := []protocol.ConsensusVersion{protocol.ConsensusV40, protocol.ConsensusV41, protocol.ConsensusV42, protocol.ConsensusV42, protocol.ConsensusFuture}
+	allVersions := []protocol.ConsensusVersion{protocol.ConsensusV42, protocol.ConsensusV40, protocol.ConsensusFuture, protocol.ConsensusV41}
+	// two protocol versions per process (a ledger costs seconds to open); shards rotate through all four
+	rot := (vkShard() + int(vkSeed()%4)) % 4
+	versions := []protocol.ConsensusVersion{allVersions[rot], allVersions[(rot+1)%4]}
 
 	// Opening a ledger costs seconds of CPU here (the account LRU caches pre-allocate large buffers), so one
 	// ledger per protocol version is shared by consecutive cases. Cases stay independent: each one works on its
@@ -203,22 +205,14 @@ func TestVerif_C28_Evaluator(t *testing.T) {
 		for i := range users {
 			users[i] = basics.Address(crypto.Hash([]byte(fmt.Sprintf("verif-C28-user-%d-%d-%d", vkShard(), caseNo, i))))
 		}
-		vb, err := w.block([]*txntest.Txn{{Type: "appl", Sender: addrs[0], ApprovalProgram: evkSrc(c28AppSource), ClearStateProgram: "int 1"}})
+		// The application is created by the first transaction of the case's first block, so its id is the
+		// transaction counter + 1 (checked against the committed block below); the funding group follows it.
+		lastHdr, err := l.BlockHdr(l.Latest())
 		if err != nil {
-			rt.Fatalf("harness: app creation: %v", err)
+			rt.Fatalf("harness: BlockHdr: %v", err)
 		}
-		app := vb.Block().Payset[0].ApplyData.ApplicationID
-		if app == 0 {
-			rt.Fatalf("harness: no application id")
-		}
+		app := basics.AppIndex(lastHdr.TxnCounter + 1)
 		appAddr := app.Address()
-		fund := []*txntest.Txn{{Type: "pay", Sender: addrs[0], Receiver: appAddr, Amount: 50_000_000}}
-		for _, u := range users {
-			fund = append(fund, &txntest.Txn{Type: "pay", Sender: addrs[0], Receiver: u, Amount: 50_000_000})
-		}
-		if _, err = w.block(fund); err != nil {
-			rt.Fatalf("harness: funding: %v", err)
-		}
 
 		ghosts := []basics.Address{ // never funded: these accounts do not exist
 			basics.Address(crypto.Hash([]byte(fmt.Sprintf("verif-C28-ghost-%d-%d-0", vkShard(), caseNo)))),
@@ -268,6 +262,21 @@ func TestVerif_C28_Evaluator(t *testing.T) {
 			}
 			nGroups := rapid.IntRange(1, 4).Draw(rt, "groups")
 			var placed []c28Placed
+			if b == 0 {
+				create := []*txntest.Txn{{Type: "appl", Sender: addrs[0], ApprovalProgram: evkSrc(c28AppSource), ClearStateProgram: "int 1"}}
+				fund := []*txntest.Txn{{Type: "pay", Sender: addrs[0], Receiver: appAddr, Amount: 50_000_000}}
+				for _, u := range users {
+					fund = append(fund, &txntest.Txn{Type: "pay", Sender: addrs[0], Receiver: u, Amount: 50_000_000})
+				}
+				for _, sg := range [][]*txntest.Txn{create, fund} {
+					if err := evkApply(ev, w.group(sg...), false); err != nil {
+						rt.Fatalf("harness: setup group: %v", err)
+					}
+					for range sg {
+						placed = append(placed, c28Placed{sender: addrs[0], right: addrs[0]})
+					}
+				}
+			}
 			for gI := 0; gI < nGroups; gI++ {
 				tent := model.clone()
 				n := rapid.SampledFrom([]int{1, 1, 2, 2, 3}).Draw(rt, "members")
@@ -459,7 +468,7 @@ func TestVerif_C28_Evaluator(t *testing.T) {
 				vk.Labelf("group size=%d verdict=%s", n, verdict)
 			}
 			tamperNote := ""
-			tampered, twinErr, err := c28Finish(w, ev, func(np int) (int, basics.Address, bool) {
+			fin, tampered, twinErr, err := c28Finish(w, ev, func(np int) (int, basics.Address, bool) {
 				if np != len(placed) {
 					rt.Fatalf("harness: payset has %d transactions, %d members were accepted", np, len(placed))
 				}
@@ -485,6 +494,9 @@ func TestVerif_C28_Evaluator(t *testing.T) {
 			if err != nil {
 				rt.Fatalf("C28 block built from accepted groups does not generate/validate/commit: %v\nproto=%s\nhistory:\n%s", err, cv, strings.Join(history, "\n"))
 			}
+			if b == 0 && (len(fin.Payset) == 0 || fin.Payset[0].ApplyData.ApplicationID != app) {
+				rt.Fatalf("harness: predicted application id %d is not the created one", app)
+			}
 			if tampered {
 				history = append(history, tamperNote)
 				switch {
@@ -492,7 +504,6 @@ func TestVerif_C28_Evaluator(t *testing.T) {
 					rt.Fatalf("C28 Ledger.Validate accepted a block in which a transaction claims a signer that is not its sender's auth address\n%s\nproto=%s\nhistory:\n%s", tamperNote, cv, strings.Join(history, "\n"))
 				case c28IsAuthErr(twinErr):
 					vk.Label("tampered-twin-refused-by-authorizer-check")
-					nontrivialCase = true
 				default:
 					vk.Excluded("tampered-twin-refused-by-another-check:" + evkErrClass(twinErr))
 				}
